@@ -13,7 +13,7 @@ sizeof or switch case re-checks every theorem below.
 
 Clause by clause:
   constructors            C29_scalar_roundtrip, C29_public_ctor_type, C29_special_values
-  occa::primitive         C29_prim_roundtrip_typed, C29_prim_roundtrip, C29_untyped_overload_unused
+  occa::primitive         C29_prim_roundtrip_typed, C29_prim_roundtrip, C29_int_value_preserved, C29_untyped_overload_total
   json set/get (value+type)  C29_json_scalar_set_get, C29_json_bool_set_get, C29_json_string_null_set_get
   json paths / histories  C29_json_set_get_path, C29_json_set_frame, C29_json_history
   json arrays             C29_array_push_get, C29_array_history, C29_array_get_grows_keeps, C29_array_insert
@@ -105,6 +105,16 @@ theorem C29_prim_roundtrip (c : CTy) (hc : c ≠ .bool) (garbage garbage' v : Na
     | exact absurd rfl hc
     | (simp only [toPrim, ofScalar, ctorSpec, primField, Option.map, ofPrim, untypedPrim] at hr key ⊢
        rw [hr]; exact congrArg _ (congrArg _ key))
+
+/-- The same *value*, not only the same bits: a stored integer or bool read back through
+    `occaJsonGetNumber` with ANY integer type that can represent it (e.g. an int8 read as int64, a
+    uint32 read as uint64, a bool read as int) has the same mathematical value. -/
+theorem C29_int_value_preserved (dst src : CTy) (v : Nat) (hs : src.isFloat = false) (hd : dst.isFloat = false)
+    (hdb : dst ≠ .bool) (hfit : dst.lo ≤ intVal src v ∧ intVal src v ≤ dst.hi) :
+    intVal dst (convTo dst src v) = intVal src v :=
+  convTo_int_value dst src v hs hd hdb hfit
+
+example : intVal .i64 (convTo .i64 .i8 0xfb) = -5 ∧ intVal .i8 0xfb = -5 := by decide
 
 /-- The untyped overload has a case for every primitive type a json number can have (after the
     repair: bool included), and no C entry point of src/c/*.cpp calls it anyway. -/
